@@ -22,6 +22,18 @@ TECHNIQUE = "static analysis of built MIR: value-flow of the capacity, who-calls
 FORBIDDEN = ("add_permits", "forget", "close", "forget_permits")
 
 
+def _field_is_semaphore(facts, node):
+    """('field', base, name, adt): the field's declared type is an Arc of tokio's Semaphore"""
+    adt = facts.adt(node[3]) if node[3] else None
+    if adt is None:
+        return False
+    crate = [c for c in facts.crates.values() if node[3] in c.adts][0]
+    for f in adt["variants"][0]["fields"]:
+        if f["name"] == node[2]:
+            return "tokio::sync::semaphore::Semaphore" in crate.types[f["ty"]]["s"]
+    return False
+
+
 def run(facts, tr, rep):
     bh = BH(facts, tr, rep)
     rep.floor("C01.service-impls", len(bh.services), 1)
@@ -87,7 +99,7 @@ def run(facts, tr, rep):
             if src[0] == "call" and tr.call_of(src).def_ == CLONE:
                 cc = tr.call_of(src)
                 src = peel(tr.expand(tr.operand(cc.g.b, cc.args[0], cc.loc)))
-            oks = src[0] == "field" and "semaphore" in str(src[2]) and peel(src[1])[0] == "param"
+            oks = src[0] == "field" and peel(src[1])[0] == "param" and _field_is_semaphore(facts, src)
             rep.ob("C01.ADMIT-SEM", skey(b, "acquire@%s" % kind), oks, acq.where(),
                    "permits are acquired from (a clone of) the service's shared semaphore" if oks else
                    "permits are acquired from %s, not the service's shared semaphore" % show(src))
